@@ -819,8 +819,32 @@ def literal_underflow(rng, maxd=100):
     return s + ds + rng.choice('eE') + str(E)
 
 
+def literal_wordcarry(rng):
+    """32..34 significant digits (possibly followed by more) whose leading part times 10^17 sits on a 64-bit word boundary, or whose
+    last 17 digits make the low-word addition wrap exactly: the parser assembles the coefficient as high * 10^17 + low with a manual carry"""
+    nh = rng.choice([15, 16, 17])
+    if rng.random() < 0.6:
+        kmax = (10 ** nh - 1) >> 47; kmin = ((10 ** (nh - 1)) >> 47) + 1
+        head = rng.randint(kmin, max(kmin, kmax)) << 47            # low word of head * 10^17 is zero
+        tail = rng.choice([0, 1, 10 ** 17 - 1, rng.randint(0, 10 ** 17 - 1)])
+    else:
+        head = rng.randint(10 ** (nh - 1), 10 ** nh - 1)
+        lowword = (head * 10 ** 17) % (1 << 64)
+        tail = ((1 << 64) - lowword + rng.choice([0, 0, -1, 1])) % (1 << 64)   # low word + tail = 2^64 (or one off)
+        if tail >= 10 ** 17: tail = rng.randint(0, 10 ** 17 - 1)
+    ds = str(head) + '%017d' % tail
+    if rng.random() < 0.3: ds += ''.join(rng.choice('0123456789') for _ in range(rng.randint(1, 30)))
+    s = rng.choice(['', '+', '-'])
+    if rng.random() < 0.4:
+        p = rng.randint(1, len(ds) - 1); ds = ds[:p] + '.' + ds[p:]
+    e = ''
+    if rng.random() < 0.6: e = rng.choice('eE') + str(rng.choice([rng.randint(-70, 70), rng.randint(-6200, 6100)]))
+    return s + ds + e
+
+
 def literal(rng, maxd=100):
     if rng.random() < 0.15: return literal_underflow(rng, maxd)
+    if rng.random() < 0.05: return literal_wordcarry(rng)
     nd = rng.choice([rng.randint(1, 34), rng.randint(1, 34), rng.randint(35, maxd), rng.randint(30, 40)])
     ds = ''.join(rng.choice('0123456789') for _ in range(nd))
     if nd > 37 and rng.random() < 0.5:      # ties and near-ties at digit 35
